@@ -7,6 +7,7 @@ import Driver.Writer
 import Driver.Conc
 import Driver.Sw
 import Driver.Stall
+import Driver.CommitMutex
 open Driver
 
 structure DState where
@@ -48,7 +49,10 @@ def step (s : DState) (line : String) : DState × String :=
                 | none =>
                   match stallCmd s.stall ws with
                   | some (x, out) => ({ s with stall := x }, out)
-                  | none => (s, "bad-op")
+                  | none =>
+                    match cmCmd ws with
+                    | some out => (s, out)
+                    | none => (s, "bad-op")
 
 partial def loop (h : IO.FS.Stream) (out : IO.FS.Stream) (s : DState) : IO Unit := do
   let line ← h.getLine
